@@ -3,16 +3,23 @@
 (*                                                                           *)
 (* Events (JSON / records), one run per (fam, entry, cls):                   *)
 (*  reset  fam, entry, cls          starts the run                           *)
-(*  call   fam, entry, cls, p, outcome in {"ok","error","panic","hang"}      *)
+(*  call   fam, entry, cls, p, got, outcome in {"ok","error","panic","hang"} *)
 (*         the real entry point was called on the rendering of shape p:      *)
 (*         ok / error = it returned (a value / an error or false),           *)
 (*         panic = it panicked (or crashed the process), hang = it did not   *)
-(*         return within the deadline in two independent runs                *)
+(*         return within the deadline in two independent runs; got = the     *)
+(*         harness's rendering of the decoded value where the grammar states *)
+(*         an expectation ("" otherwise)                                     *)
 (*  end    n                        the run is over, n calls were recorded   *)
 (*                                                                           *)
 (* Law: every call is a shape of the grammar fed to an entry point the       *)
 (* grammar lists for it, and its outcome is ok or error - unless (entry,     *)
 (* class) is one of the programmer-misuse panics the property excludes.      *)
+(* "Malformed input is reported through the returned error": a call on a     *)
+(* shape the grammar marks MustReject (a duration that does not fit          *)
+(* time.Duration) must return an error, and a call that returns no error     *)
+(* must have decoded the value the grammar expects (never a wrapped-around   *)
+(* duration or a pointer's address).                                         *)
 EXTENDS InputShapes
 
 (* documented misuse panics, excluded by the property statement, by name:    *)
@@ -34,6 +41,9 @@ CCall(c, e) ==
   IF c.ended THEN Bad(c, "call after the end of its run")
   ELSE IF e.fam # c.fam \/ e.entry # c.entry \/ e.cls # c.cls THEN Bad(c, "call outside its run")
   ELSE IF ~IsShapeCall(e) THEN Bad(c, "not a shape of the grammar")
+  ELSE IF e.outcome = "ok" /\ MustReject(e.fam, e.p) THEN Bad(c, "malformed input accepted")
+  ELSE IF e.outcome = "ok" /\ Expect(e.fam, e.p) # "any" /\ e.got # Expect(e.fam, e.p)
+       THEN Bad(c, "wrong value without an error")
   ELSE IF e.outcome \in {"ok", "error"} THEN [c EXCEPT !.n = @ + 1]
   ELSE IF e.outcome = "panic" /\ <<e.entry, e.cls>> \in Misuse THEN [c EXCEPT !.n = @ + 1]
   ELSE IF e.outcome = "panic" THEN Bad(c, "panic")
